@@ -124,10 +124,11 @@ Definition sudo_watcher (su : sudo_info) : watcher :=
 (** The watchers in effect for one call.
     [run]: [opts["watchers"]] = the keyword argument unless None, else [config.run.watchers]
     ([_unify_kwargs_with_config]); [self.watchers] takes it when truthy, else stays [].
-    [_sudo]: [list(kwargs.pop("watchers", config.run.watchers))] -- a COPY (fix
-    941d213: the caller's list is not touched, so reusing it for another call does
-    not accumulate responders) -- with the sudo watcher appended, handed on as the
-    keyword argument.
+    [_sudo]: the keyword argument unless absent or None (fix 2644606: None means
+    "not given", as for run), else [config.run.watchers]; a COPY of it (fix 941d213:
+    the caller's list is not touched, so reusing it for another call does not
+    accumulate responders) with the sudo watcher appended, handed on as the keyword
+    argument.  [kw_ws = None] stands for both "absent" and "explicitly None".
     Driving the objects directly: the list handed over. *)
 Definition call_watchers (cfg_ws : list watcher) (kw_ws : option (list watcher))
            (sudo : option sudo_info) : list watcher :=
